@@ -156,21 +156,26 @@ theorem C14_checked_from_scratch (E : ClassEnv) (fuel : Nat) (base : String) (hd
       ∧ ArgsValid params ia :=
   C14_checked E fuel base hdet srcs none s (by intro _ _ _ h; cases h) hne h
 
-/-- a class change keeps only the previous init_args that the NEW class has a parameter for and accepts -/
+/-- a class change keeps only the previous init_args that the NEW class has a parameter for and accepts: what is kept
+    is valid for the new class, every kept entry stems from an accepted previous one, and a previous init arg without
+    parameter in the new class contributes nothing (wherever it stands) -/
 theorem C14_discard (rec : String → Option Val → Val → Except Err Val) (params : List IParam) (pia : KV) :
     ArgsValid params (keepArgs rec params pia)
-    ∧ ∀ e ∈ pia, findParam params e.1 = none → e ∉ keepArgs rec params pia := by
-  refine ⟨keepArgs_valid rec params pia, ?_⟩
-  intro e _ hn hmem
-  simp only [keepArgs, List.mem_filter, hn] at hmem
-  exact absurd hmem.2 (by simp)
+    ∧ (∀ e' ∈ keepArgs rec params pia, ∃ e ∈ pia, e'.1 = e.1 ∧
+        ∃ p, findParam params e.1 = some p ∧ isOk (adaptValueWith rec p.ty none e.2) = true)
+    ∧ (∀ a b e, pia = a ++ e :: b → findParam params e.1 = none →
+        keepArgs rec params pia = keepArgs rec params a ++ keepArgs rec params b) := by
+  refine ⟨keepArgs_valid rec params pia, keepArgs_origin rec params pia, ?_⟩
+  intro a b e hpia hn
+  rw [hpia, keepArgs_append, keepArgs_drops_unknown rec params b e hn]
 
 /-- in particular a `None` carried from the previous class (an explicit `null`, or the completed default of an
     `Optional` parameter) does not survive when the new class's parameter of that name is a non-Optional scalar -/
-theorem C14_discard_none (rec : String → Option Val → Val → Except Err Val) (params : List IParam) (pia : KV)
+theorem C14_discard_none (rec : String → Option Val → Val → Except Err Val) (params : List IParam) (a b : KV)
     (e : String × Val) (p : IParam) (t : String) (hp : findParam params e.1 = some p) (hty : p.ty = .scalar t)
-    (ht : t ≠ "NoneType") (hn : isNone e.2 = true) : e ∉ keepArgs rec params pia :=
-  keepArgs_drops_none rec params pia e p t hp hty ht hn
+    (ht : t ≠ "NoneType") (hn : isNone e.2 = true) :
+    keepArgs rec params (a ++ e :: b) = keepArgs rec params a ++ keepArgs rec params b := by
+  rw [keepArgs_append, keepArgs_drops_none rec params b e p t hp hty ht hn]
 
 /-- the end of the parse: the stored init_args become exactly the parameters of the named class, in signature order -/
 theorem C14_checked_final (E : ClassEnv) (fuel : Nat) (cp : String) (ia dk : KV) (s : Val)
